@@ -95,6 +95,27 @@ def section5():
     return "\n".join(out)
 
 
+def section31():
+    out = ["| id | translator run on every check (`gen` entries of manifest.d) | what is regenerated and what is re-proved over it (the check's `technique`) |", "|---|---|---|"]
+    for pr in props:
+        pid = pr["id"]
+        cfgp = os.path.join(ROOT, "manifest.d", pid + ".json")
+        if not os.path.exists(cfgp):
+            continue
+        cfg = json.load(open(cfgp))
+        gens = cfg.get("gen", [])
+        if not gens:
+            out.append("| %s | — (hand-written model, correspondence only) | %s |" % (pid, cfg["manifest"].get("technique", "").replace("|", "\\|")))
+            continue
+        names = []
+        for g in gens:
+            cmd = " ".join(g["cmd"])
+            m = re.search(r"(translator[\w-]*)[ /].*?cmd/(\w+)", cmd) or re.search(r"(translator[\w-]*)", cmd)
+            names.append("`%s`" % ("/".join(x for x in m.groups() if x) if m else cmd[:60]))
+        out.append("| %s | %s | %s |" % (pid, ", ".join(names), cfg["manifest"].get("technique", "").replace("|", "\\|")))
+    return "\n".join(out)
+
+
 def section6():
     out = ["| # | property | `fix:` commit | what failed |", "|---|---|---|---|"]
     n = 0
@@ -136,7 +157,7 @@ def section11():
 def main():
     p = os.path.join(ROOT, "DESIGN.md")
     s = open(p, encoding="utf8").read()
-    for name, fn in (("SECTION5", section5), ("SECTION6", section6), ("SECTION11", section11)):
+    for name, fn in (("SECTION31", section31), ("SECTION5", section5), ("SECTION6", section6), ("SECTION11", section11)):
         b, e = "<!-- GENERATED:%s BEGIN -->" % name, "<!-- GENERATED:%s END -->" % name
         if b not in s or e not in s:
             print("marker missing:", name)
